@@ -217,6 +217,14 @@ Definition sweep_has (nt : net) (a b id : nat) : bool :=
 Definition table_okb (nt : net) : bool :=
   nodupb (map m_id (n_motifs nt))
   && forallb (fun m => forallb (fun e => sweep_has nt (fst e) (snd e) (m_id m)) (m_edges m)) (n_motifs nt).
+(* the cover precondition as the method states it, on the TABLE alone: two motifs with different IDs share at most
+   one vertex (any two distinct vertices of the first are not both vertices of the second).  Stronger than
+   cover_okb (Proofs/MsgPassT.v: net_okb + pairwise_okb -> cover_okb), which only looks at adjacent vertices. *)
+Definition share_le1b (a b : list nat) : bool :=
+  forallb (fun v => forallb (fun w => Nat.eqb v w || negb (memb v b && memb w b)) a) a.
+Definition pairwise_okb (nt : net) : bool :=
+  forallb (fun m1 => forallb (fun m2 => Nat.eqb (m_id m1) (m_id m2) || share_le1b (m_verts m1) (m_verts m2))
+                             (n_motifs nt)) (n_motifs nt).
 (* all preconditions of the table-based theorems, run on every case *)
 Definition c17_check_table (t : tree) : tree :=
-  of_bool (table_okb (t_net t) && cover_okb (t_net t) && net_okb (t_net t)).
+  of_bool (table_okb (t_net t) && cover_okb (t_net t) && net_okb (t_net t) && pairwise_okb (t_net t)).
